@@ -173,7 +173,7 @@ H={'C02-a':"missed by the first version of C02 (all workloads used distinct wind
  'C03-g':"missed at first (images were deep copies made at each commit); the stop-before-commit scenario on the same in-memory database and crash attribution for store code were added",
  'C03-h':"missed at first (the flush hook was installed after the store had initialised); commits during initialisation are now commit points",
  'C04-g':"missed at first (no poll ever collected more than 64 updates); long walks against deep reorgs added",
- 'C04-h':"a crash-consistency change: decided by C03",
+ 'C04-h':"not caught, deliberately: the change makes a tip that AddBlocks already announced non-durable until the next periodic commit; the reopened database is consistent at an earlier tip and catches up, which is all C03 states, and C04's quantifier ranges over indices on branches the store still holds (no restarts). No given property demands durability on return, so no oracle was added for it",
  'C05-g':"missed at first (uniform weights in the pool-full scenario); weights now differ by three orders of magnitude",
  'C06-g':"missed at first (generated v1 contracts paid missed outputs to the same addresses as valid ones); generator extended",
  'C12-e':"missed at first; tight-inbound-cap topologies and the accepted-connection-dropped check added",
